@@ -848,3 +848,46 @@ Proof.
   rewrite writes_a_app', writes_a_drain, app_nil_r in Hb.
   rewrite writes_b_app', writes_b_drain, app_nil_r in Ha. auto.
 Qed.
+
+(* ---------- no mutual wait ----------
+   process_tx never returns while this side owes credits: whatever its own transmit
+   situation (no tx credits, data queued), the receive ledger is above the threshold
+   afterwards and every credit added to it has been put on the wire *)
+Lemma process_tx_grants P d :
+  wf_params P -> 2 <= d_mtu d -> 0 <= d_tx_credits d -> 0 <= d_rx_credits d ->
+  let '(d', frs, ok) := process_tx P d in
+  p_threshold P < d_rx_credits d' /\ d_rx_credits d' = d_rx_credits d + sum_credits frs.
+Proof.
+  intros HP Hm Ht Hr. pose proof (process_tx_spec P d HP Hm Ht Hr) as H.
+  destruct (process_tx P d) as [[d' frs] ok]. tauto.
+Qed.
+
+(* in every reachable state in which data is queued at either end, a delivery is enabled:
+   the wire is not idle (both ends never wait for each other) *)
+Lemma no_mutual_wait P ini rsp mtu_i mtu_r ls :
+  wf_params_b P = true -> wf_link_b ini rsp mtu_i mtu_r = true ->
+  let s := run P (setup ini rsp mtu_i mtu_r) ls in
+  d_tx_buf (s_a s) <> [] \/ d_tx_buf (s_b s) <> [] -> s_ab s <> [] \/ s_ba s <> [].
+Proof.
+  intros HP Hwf. cbn zeta. intros Hq.
+  destruct (s_ab (run P (setup ini rsp mtu_i mtu_r) ls)) eqn:Ea; [|left; discriminate].
+  destruct (s_ba (run P (setup ini rsp mtu_i mtu_r) ls)) eqn:Eb; [|right; discriminate].
+  exfalso. destruct (progress P ini rsp mtu_i mtu_r HP Hwf ls Ea Eb) as (Ba & Bb & _).
+  destruct Hq as [Hq|Hq]; contradiction.
+Qed.
+
+(* the seeded rule "withhold the credits owed while out of tx credits with data queued"
+   deadlocks bulk transfers in both directions: frame size 23, 1 initial credit each way,
+   1200 / 1400 bytes written at the two ends before anything is delivered *)
+Definition withhold_witness : list label :=
+  [WriteA (repeat 7 1200); WriteB (repeat 9 1400)] ++ drain_sched 200.
+
+Lemma seeded_withhold_deadlocks :
+  let s := run_seeded (mkParams 32 16) (setup (mkPn 23 1) (mkPn 23 1) 48 48) withhold_witness in
+  s_ab s = [] /\ s_ba s = [] /\ d_tx_buf (s_a s) <> [] /\ d_tx_buf (s_b s) <> [].
+Proof. vm_compute. repeat split; discriminate. Qed.
+
+Lemma withhold_witness_ok :
+  let s := run (mkParams 32 16) (setup (mkPn 23 1) (mkPn 23 1) 48 48) withhold_witness in
+  s_ab s = [] /\ s_ba s = [] /\ s_rcv_b s = repeat 7 1200 /\ s_rcv_a s = repeat 9 1400.
+Proof. vm_compute. repeat split. Qed.
